@@ -25,6 +25,42 @@ func init() {
 	register("lex", lexHandler)
 	register("pump", pumpHandler)
 	register("parse", parseHandler)
+	// GetLine / LineCount after lexing to EOF: what the CLI prints under a located diagnostic.
+	// reply: "good <LineCount>" or "bad:<reason>"; oracle on raw bytes: GetLine(k) is the k-th line of the source
+	// (as Go decodes it, without its line feed), for every line the lexer went through (a NUL byte ends the input and is the last character read).
+	register("getline", func(args string) string {
+		src, err := unhx(strings.TrimSpace(args))
+		if err != nil {
+			return "badreq"
+		}
+		text := string(src)
+		if i := strings.IndexByte(text, 0); i >= 0 {
+			text = text[:i+1] // the lexer reads the NUL byte that ends the input: it is part of the last line
+		}
+		l := lexer.NewFromString(string(src))
+		for n := 0; n < 4*len(src)+16; n++ {
+			if l.NextToken().Type == token.EOF {
+				break
+			}
+		}
+		want := strings.Split(string([]rune(text)), "\n")
+		if len(want) > 0 && want[len(want)-1] == "" && len(want) > 1 {
+			want = want[:len(want)-1] // a final line feed does not open another line
+		}
+		if l.LineCount() != len(want) {
+			return fmt.Sprintf("bad:LineCount %d, the source has %d lines", l.LineCount(), len(want))
+		}
+		for k := 1; k <= len(want); k++ {
+			got, ok := l.GetLine(k)
+			if !ok || got != want[k-1] {
+				return fmt.Sprintf("bad:GetLine(%d) = %q, the source line is %q", k, got, want[k-1])
+			}
+		}
+		if _, ok := l.GetLine(len(want) + 1); ok {
+			return "bad:GetLine beyond the last line succeeds"
+		}
+		return fmt.Sprintf("good %d", len(want))
+	})
 	// the strconv.ParseFloat verdicts the parser model needs as its oracle (floatOracle and
 	// significant are C02's, harness/cmd/implrun/parse.go): "hex=0/1,..." or "-"
 	register("floats", func(args string) string {
